@@ -1,4 +1,6 @@
-use crate::solvers::common::{DisplayValue, LpSolution, SolverError, format_float};
+use crate::solvers::common::{
+    DisplayValue, LpSolution, SolutionStatus, SolverError, format_float,
+};
 use crate::transformers::LinearModel;
 use crate::{
     Assignment, Comparison, OptimizationType, VariableType, make_constraints_map_from_assignment,
@@ -200,7 +202,14 @@ pub fn solve_milp_lp_problem_with(
     }
 
     match problem.solve_with(solve_options) {
+        // a limit fired before any feasible point was found: the values microlp
+        // exposes are its working point (possibly fractional and infeasible)
+        Ok(s) if s.status() == microlp::Status::Interrupted => Err(SolverError::LimitReached),
         Ok(s) => {
+            let status = match s.status() {
+                microlp::Status::Optimal => SolutionStatus::Optimal,
+                microlp::Status::Feasible | microlp::Status::Interrupted => SolutionStatus::Feasible,
+            };
             let value_of = |index: usize| {
                 let positive = s.var_value(microlp_vars[index]);
                 match negative_parts[index] {
@@ -234,7 +243,8 @@ pub fn solve_milp_lp_problem_with(
                 assignment,
                 s.objective() + lp.objective_offset(),
                 constraints,
-            ))
+            )
+            .with_status(status))
         }
         Err(e) => Err(match e {
             Error::InternalError(s) => SolverError::Other(s),
